@@ -378,7 +378,10 @@ def semC : Sem CV where
   matHead := fun v => match v with
     | .matrix ((h :: _) :: _) => some h
     | _ => none
-  mkMatrix := .matrix
+  -- newArrayConstFormulaArg (repository fix: rows of different length are #VALUE!, not a matrix)
+  mkMatrix := fun rows => match rows with
+    | [] => .matrix rows
+    | r0 :: _ => if rows.all (fun r => r.length == r0.length) then .matrix rows else .err "#VALUE!"
   errArg := .err "#VALUE!"
 
 /-! ### protocol -/
